@@ -1,7 +1,8 @@
 """C13 — bounded stand-in on the real pattern engine (runtime/h_gsm.py)."""
 ID = "C13"
 LEVEL = "exploration"
-FUNCTIONS = []
+FUNCTIONS = ["codelimit.common.gsm.matcher:match", "codelimit.common.gsm.matcher:starts_with"]
+BOUNDED_SKIP = list(FUNCTIONS)   # driven by the harness below through the real engine
 TRUSTED = ["the derivative-based reference semantics in runtime/h_gsm.py"]
 ASSUMPTIONS = []
 BOUND = 'all pattern syntax trees with up to 5 nodes over {a,b,c} (1831 trees; thorough: up to 6 nodes, 6000 sampled of size 6) plus 100 random trees of 5..8 nodes (thorough 1000) x all sequences up to length 5 (thorough 6)'
@@ -16,7 +17,7 @@ def bounded(tier, seed, fallback_for):
 MANIFEST = {
     "category": "exploration",
     "technique": "bounded-exhaustive stand-in on the real engine against a derivative-based reference (contracts on the matcher functions where listed in evidence)",
-    "text": 'Regular-expression semantics of the engine is compared with an independent derivative-based reference on every small pattern and sequence (bounded, exhaustive within the bound); contracts on Pattern.consume/match/starts_with are listed in evidence when discharged.',
+    "text": 'Regular-expression semantics of the engine is compared with an independent derivative-based reference on every small pattern and sequence (bounded, exhaustive within the bound). Discharged for all inputs, relative to a summary of Pattern.consume: match feeds every item in order to one pattern started at 0 on the built automaton, reports it exactly when the fully consumed run is accepting, with end = number of items and exactly the items recorded; starts_with returns at the first accepting state after at least one item (no shorter prefix was accepting), within bounds, recording exactly its items.',
     "note": 'bounded-exhaustive; the subset construction (nfa_to_dfa) is a heap-graph induction outside the reach of the SMT-only VC generator',
     "design_ref": "DESIGN.md §6 C13",
 }
